@@ -349,3 +349,23 @@ PLAN["C20"] = {
     "min_nontrivial": 100,
     "runs": runs([dict(MON16, budget=200, scale=2.0)], [dict(MON16, budget=1200), {"flavour": "rel", "shards": 16, "scale": 0.3, "budget": 600}]),
 }
+
+# ---- additions made after the seeded-change rounds (DESIGN.md 11.1, 14.1, 14.2); appended to the rules above
+ADDED = {
+    "C02": "a quarter of the verdicts are produced by a solver object that was solved once before (first solve cut off after one iteration, leaving finite objective values behind)",
+    "C03": "a quarter of the instances have the objective (P,q) rescaled by 1e2/1e4/1e6/1e-3; full and reduced tolerances are sampled independently",
+    "C04": "every fifth run is verbose into an in-memory buffer (the printing code runs inside the main loop on whatever magnitudes the iterates reach); the solver's own clock must advance monotonically over the observed iterations",
+    "C05": "objective scalings include 1e4, 1e6 and 1e-6; a PrimalInfeasible/DualInfeasible pair is an observation only for problems that are infeasible both ways; dissenting runs are classified by mechanism (initial-point blow-up, extreme objective scale without equilibration) for the known-findings file",
+    "C07": "slices with b scaled by 1e15..1e30 and with a contradictory pair of big-M rows (M up to 1e30); nonnegative-cone components must be > 0 exactly; a third of the budget-limited prefix runs are re-solves of ONE solver object with changing max_iter",
+    "C08": "a PrimalInfeasible/DualInfeasible pair between the live and the fresh solver is accepted only if both certificates pass the documented test on the model data",
+    "C10": "after the construction check 1-3 in-place updates (P, A, q, b; full vectors and (index,value) pairs) are applied and the entry equations are re-checked against the updated user data (8 ulp on rewritten entries)",
+    "C11": "each live snapshot is followed by a re-solve with max_iter=0 (the identity-scaling KKT system assembled over the old state) and, in a third of the cases, by fault injection: a NaN is written through update_A, a solve fails on it, A is repaired and the solver is used again; all snapshot oracles are applied after each phase",
+    "C12": "pivots planted exactly on the regularisation threshold (eps in {1e-12,1e-13,1e-6,0,0.5}); refactor histories include matrices with structurally absent diagonal entries",
+    "C14": "half of the cone objects were already scaled at another interior point with a random strategy before the oracles run",
+    "C15": "15% of the initialisation cases contain components of magnitude 1e14..1e40 (exact positivity for orthant and second-order blocks, eigenvalue-rounding allowance for PSD blocks)",
+    "C18": "a PrimalInfeasible/DualInfeasible pair between decomposition on and off is accepted only if both certificates hold by definition, and is inconclusive if the reference (off) certificate does not hold",
+    "C19": "token-level corruptions at every token start (true/false/null flipped, numbers replaced by 0, -1, 1e308, 2^64-1, null, 0.5, [], a string); every corrupted file that is accepted must parse as one whole JSON document with the harness's strict parser",
+    "C20": "a slice with 6-13 cones of one kind: lists of more than five dimensions must read first four, '...', last",
+}
+for _k, _v in ADDED.items():
+    PLAN[_k]["rule"] = PLAN[_k]["rule"] + "; ADDED: " + _v
